@@ -400,7 +400,7 @@ func runC19(c *RuleCtx) {
 			}
 		}
 		c.Min["R05.1"] = 11
-		c.Min["R05.2"] = 18
+		c.Min["R05.2"] = 19
 	}
 	c.Min["R19.1"] = 60
 	c.Min["R19.2"] = 16
